@@ -47,6 +47,9 @@ func resolveStruct(rv reflect.Value, fieldName string) (any, bool) {
 
 	// Try field name first
 	if f, ok := rt.FieldByName(fieldName); ok {
+		if !f.IsExported() {
+			return nil, false
+		}
 		fv := rv.FieldByIndex(f.Index)
 		return fv.Interface(), true
 	}
@@ -55,7 +58,7 @@ func resolveStruct(rv reflect.Value, fieldName string) (any, bool) {
 	for i := range rt.NumField() {
 		f := rt.Field(i)
 		tag := f.Tag.Get("json")
-		if tag == "" {
+		if tag == "" || !f.IsExported() {
 			continue
 		}
 
@@ -72,7 +75,10 @@ func resolveStruct(rv reflect.Value, fieldName string) (any, bool) {
 
 // resolveMap handles map access by string key.
 func resolveMap(rv reflect.Value, key string) (any, bool) {
-	mapKey := reflect.ValueOf(key)
+	if rv.Type().Key().Kind() != reflect.String {
+		return nil, false
+	}
+	mapKey := reflect.ValueOf(key).Convert(rv.Type().Key())
 	v := rv.MapIndex(mapKey)
 	if !v.IsValid() {
 		return nil, false
